@@ -205,6 +205,12 @@ class MinFlowDecompCycles(walkmodel.AbstractWalkModelDiGraph):
         # A (re-)solve starts from scratch: whatever an earlier solve() of this object found is no longer the answer of this run
         self._is_solved = False
         self._solution = None
+        # (nor are the lower bounds and helper models derived from the graph as it was then)
+        self._lowerbound_k = None
+        self._generating_set = None
+        self._given_weights_model = None
+        self._mingenset_model = None
+        self._source_flow = None
         utils.logger.info(f"{__name__}: starting to solve the MinFlowDecompCycles model for graph id = {utils.fpid(self.G)}")
 
         if self.optimization_options.get("optimize_with_guessed_weights", MinFlowDecompCycles.optimize_with_given_weights):            
